@@ -36,6 +36,15 @@ func (r *streamReader) Receive(stream DRPCRemote_ReceiveStream) error {
 		}
 
 		for _, msg := range envelope.Messages {
+			// never trust the indices of a peer.
+			if msg == nil ||
+				msg.TypeNameIndex < 0 || int(msg.TypeNameIndex) >= len(envelope.TypeNames) ||
+				msg.TargetIndex < 0 || int(msg.TargetIndex) >= len(envelope.Targets) ||
+				(len(envelope.Senders) > 0 && int(msg.SenderIndex) >= len(envelope.Senders)) {
+				err := errors.New("malformed envelope: index out of range")
+				slog.Error("streamReader receive", "err", err)
+				return err
+			}
 			tname := envelope.TypeNames[msg.TypeNameIndex]
 			payload, err := r.deserializer.Deserialize(msg.Data, tname)
 
